@@ -72,6 +72,8 @@ C01_outcome(T)  == IF T.outcome = "ok" THEN {} ELSE {0}
 C01_end(T)      == IF NA(T) > 0 /\ T.acts[NA(T)].tag = "end" THEN {} ELSE {NA(T)}
 C01_seats(T)    == LET a == T.acts[NA(T)] IN
                    IF Cardinality(ElectedAt(a)) = Min2(T.seats, Cardinality(Electable(T))) THEN {} ELSE {NA(T)}
+(* only electable candidates are ever elected (not a withdrawn one, nor -- Minneapolis -- an undeclared write-in) *)
+C01_electable(T) == {k \in 1 .. NA(T) : ~(ElectedAt(T.acts[k]) \subseteq Electable(T))}
 C01_decided(T)  == LET a == T.acts[NA(T)] IN
                    IF \A c \in Cand(T) : IF T.wd[c] THEN a.st[c] = "W" ELSE a.st[c] \in {"E", "D"} THEN {} ELSE {NA(T)}
 C01_withdrawn(T) == {k \in 1 .. NA(T) : \E c \in Cand(T) : T.wd[c] /\ (T.acts[k].st[c] # "W" \/ T.acts[k].vote[c] # 0)}
@@ -501,7 +503,7 @@ Tag(p, cl, S) == {<<p, cl, k>> : k \in S}
 FailC01(T) == Tag("C01", "outcome", C01_outcome(T)) \cup
               (IF T.outcome # "ok" \/ NA(T) = 0 THEN {} ELSE
                  Tag("C01", "end", C01_end(T)) \cup Tag("C01", IF F25(T) THEN "KNOWN_F25" ELSE "seats", C01_seats(T)) \cup
-                 Tag("C01", "decided", C01_decided(T)) \cup Tag("C01", "withdrawn", C01_withdrawn(T)) \cup
+                 Tag("C01", "decided", C01_decided(T)) \cup Tag("C01", "electable", C01_electable(T)) \cup Tag("C01", "withdrawn", C01_withdrawn(T)) \cup
                  Tag("C01", "wdballots", C01_wdballots(T)) \cup Tag("C01", "reported", C01_reported(T)))
 FailC02(T) == Tag("C02", "nonneg", C02_nonneg(T)) \cup Tag("C02", "upper", C02_upper(T)) \cup
               Tag("C02", "lower", C02_lower(T)) \cup Tag("C02", "meek", C02_meek(T)) \cup
